@@ -35,6 +35,9 @@ struct AccCase {
     warm: bool,
     /// load the program through new(None) + register ranges + set_program instead of new(prog)
     via_set_program: bool,
+    /// stack targets only: 0 = base is a computed copy of r10 (mov + add), 1 = r10 itself is the
+    /// base register and the whole delta sits in the offset field, 2 = an unmodified copy of r10
+    direct: u8,
 }
 
 #[derive(Clone, Copy, Debug)]
@@ -118,21 +121,26 @@ fn build_prog(c: &AccCase, pkt_base: u64) -> Vec<u8> {
                     }
                 }
                 Target::StackRel(d) => {
-                    v.push(Insn::new(MOV64_REG, 2, 10, 0, 0));
-                    v.push(Insn::new(ADD64_IMM, 2, 0, 0, (d - c.off as i64) as i32));
+                    if c.direct != 1 {
+                        v.push(Insn::new(MOV64_REG, 2, 10, 0, 0));
+                    }
+                    if c.direct == 0 {
+                        v.push(Insn::new(ADD64_IMM, 2, 0, 0, (d - c.off as i64) as i32));
+                    }
                     // initialise the 32 bytes at both ends of the stack so that loads are defined
                     for k in [8i16, 16, 24, 32, 512, 504, 496, 488] {
                         v.push(Insn::new(STDW, 10, 0, -k, 0x0badcafe));
                     }
                 }
             }
+            let base: u8 = if c.direct == 1 { 10 } else { 2 };
             match c.acc {
-                Acc::Ldx => v.push(Insn::new(opc, 0, 2, c.off, 0)),
-                Acc::St => v.push(Insn::new(opc, 2, 0, c.off, ST_IMM)),
+                Acc::Ldx => v.push(Insn::new(opc, 0, base, c.off, 0)),
+                Acc::St => v.push(Insn::new(opc, base, 0, c.off, ST_IMM)),
                 Acc::Stx | Acc::Xadd => {
                     v.push(Insn::new(LDDW, 4, 0, 0, STORE_VAL as u32 as i32));
                     v.push(Insn::new(0, 0, 0, 0, (STORE_VAL >> 32) as u32 as i32));
-                    v.push(Insn::new(opc, 2, 4, c.off, 0));
+                    v.push(Insn::new(opc, base, 4, c.off, 0));
                 }
                 _ => unreachable!(),
             }
@@ -180,7 +188,7 @@ fn make_layout(rng: &mut Rng, cl: bool) -> Layout {
     let e = extra.addr();
     let mut ranges: Vec<Range<u64>> = Vec::new();
     let rdesc;
-    match if cl { 0 } else { rng.below(9) } {
+    match if cl { 0 } else { rng.below(12) } {
         0 => rdesc = "no-range",
         1 => {
             ranges.push(e..e + 64);
@@ -217,6 +225,36 @@ fn make_layout(rng: &mut Rng, cl: bool) -> Layout {
             ranges.push(e + 24..e + 64);
             ranges.push(e + 24..e + 64);
             rdesc = "overlapping-ranges"
+        }
+        9 => {
+            // a small range nested inside a large one, registered in either order: an access in
+            // the outer range beyond the inner one is allowed
+            let (outer, inner) = (e..e + 64, e + 16..e + 24);
+            if rng.chance(1, 2) {
+                ranges.push(outer);
+                ranges.push(inner);
+            } else {
+                ranges.push(inner);
+                ranges.push(outer);
+            }
+            rdesc = "nested-ranges"
+        }
+        10 => {
+            // ranges sharing their start (short and long, either order) or their end
+            let mut v = vec![e..e + 8, e..e + 40, e + 48..e + 64, e + 56..e + 64];
+            if rng.chance(1, 2) {
+                v.reverse();
+            }
+            ranges.extend(v);
+            rdesc = "same-start-or-end-ranges"
+        }
+        11 => {
+            // many small ranges with 1-byte gaps, plus one that spans three of them
+            for k in 0..8u64 {
+                ranges.push(e + 8 * k..e + 8 * k + 7);
+            }
+            ranges.push(e + 8..e + 31);
+            rdesc = "many-ranges"
         }
         5 => {
             ranges.push(e..e + 1);
@@ -343,13 +381,21 @@ pub fn run(a: &Args, rep: &mut Report, cl: bool) {
                     if tt.wrapping_sub(pkt_base) > u32::MAX as u64 {
                         continue;
                     }
-                    cases.push(AccCase { acc, width, target: t, off: 0, tag: tname, warm: false, via_set_program: rng.chance(1, 4) });
+                    cases.push(AccCase { acc, width, target: t, off: 0, tag: tname, warm: false, via_set_program: rng.chance(1, 4), direct: 0 });
                 }
                 Acc::LdInd => {
                     let Target::Abs(_) = t else { continue };
-                    cases.push(AccCase { acc, width, target: t, off: off.max(0), tag: tname, warm: false, via_set_program: rng.chance(1, 4) });
+                    cases.push(AccCase { acc, width, target: t, off: off.max(0), tag: tname, warm: false, via_set_program: rng.chance(1, 4), direct: 0 });
                 }
-                _ => cases.push(AccCase { acc, width, target: t, off, tag: tname, warm: rng.chance(1, 4), via_set_program: rng.chance(1, 4) }),
+                _ => {
+                    // stack targets: half of them addressed through r10 itself (or an unmodified
+                    // copy), the whole displacement in the offset field
+                    let (off, direct, tname) = match t {
+                        Target::StackRel(d) if rng.chance(1, 2) => (d as i16, 1 + rng.below(2) as u8, "stack-direct".to_string()),
+                        _ => (off, 0, tname),
+                    };
+                    cases.push(AccCase { acc, width, target: t, off, tag: tname, warm: rng.chance(1, 4), via_set_program: rng.chance(1, 4), direct })
+                }
             }
         }
         // snapshot of every arena
